@@ -266,6 +266,8 @@ pub fn read<M: MArch, const N: usize>(world: &mut M::World) -> Model<N> {
     let (version, len, cap, free_head) = M::get_raw(a);
     assert!(cap == N, "capacity differs from the model's");
     assert!(a.len() == len && a.capacity() == cap);
+    // the public version accessor reports the storage's version (ArchetypeVersion is repr(transparent) over NonZeroU32)
+    assert!(unsafe { std::mem::transmute::<gecs::version::ArchetypeVersion, u32>(a.version()) } == version, "Archetype::version() differs from the storage's version");
     let mut m = Model {
         version,
         len,
